@@ -52,6 +52,9 @@ UNSIGNED = {"unsigned char": 8, "unsigned short": 16, "unsigned int": 32, "unsig
             "uchar8": 8, "char8": 8, "_Bool": 8}
 
 
+EXTRA_INT_TYPES = {}      # typedef'd enums etc. named by a unit's options: name -> (signed, bits)
+
+
 class Unsupported(Exception):
     pass
 
@@ -102,6 +105,8 @@ def int_width(t):
         return False, UNSIGNED[t]
     if t.startswith("enum"):
         return False, 32
+    if t in EXTRA_INT_TYPES:
+        return EXTRA_INT_TYPES[t]
     return None
 
 
@@ -305,6 +310,24 @@ class Fn:
             if n.get("isPostfix"):
                 return (r, i, c, e + [eff])
             return (r, new, c, e + [eff])
+        if k == "CallExpr":
+            callee = self.skip(n["inner"][0])
+            nm = callee.get("referencedDecl", {}).get("name")
+            if nm in ("realloc", "HDrealloc"):
+                # realloc(p, n): the region of p is cut / extended to n cells; new cells hold the poison value 170 (indeterminate in C:
+                # a function that relies on them breaks its refinement theorem); allocation never fails (trusted base: malloc never fails)
+                r, i, c, e = self.pexpr(n["inner"][1])
+                nt, nc, ne = self.rvalue(n["inner"][2])
+                if e or ne or r.startswith("#") or r.startswith("@"):
+                    fail("%s: unsupported realloc" % self.name)
+                eff = Eff(("whole", r), "((s.%s.take (Int.toNat (%s))) ++ List.replicate (Int.toNat (%s) - s.%s.length) 170)" % (r, nt, nt, r), r)
+                return (r, "0", c + nc + ["%s = 0" % i, "(0 : Int) ≤ %s" % nt], [eff])
+            fail("%s: pointer-valued call of %s" % (self.name, nm))
+        if k == "BinaryOperator" and n.get("opcode") == "=":
+            # pointer assignment used as a value (`(p = realloc(p, n)) == NULL`): the store happens, the value is the right-hand side
+            lines = self.assignment(n, "")
+            self.pre_lines += lines
+            return self.pexpr(n["inner"][0])
         fail("%s: unsupported pointer expression %s" % (self.name, k))
 
     def member_chain(self, n):
@@ -618,6 +641,16 @@ class Fn:
             return "(Int.tdiv %s %s)" % (a, b), ["%s ≠ 0" % b]
         if op == "%":
             return "(Int.tmod %s %s)" % (a, b), ["%s ≠ 0" % b]
+        if op in ("&", "|", "^") and self.opts.get("twos_complement_bitops"):
+            # two's complement at the width of the computation type: operands reduced modulo 2^W (so negative values, e.g. `~mask`, are
+            # faithful), the Nat operation, and for a signed type the result mapped back to [-2^(W-1), 2^(W-1))
+            f = {"&": "&&&", "|": "|||", "^": "^^^"}[op]
+            sg, w = ty if ty else (True, 32)
+            m = 2 ** w
+            r = "(Int.ofNat (Int.toNat ((%s) %% %d) %s Int.toNat ((%s) %% %d)))" % (a, m, f, b, m)
+            if sg:
+                r = "(if %s ≥ %d then %s - %d else %s)" % (r, m // 2, r, m, r)
+            return r, []
         if op in ("&", "|", "^"):
             f = {"&": "&&&", "|": "|||", "^": "^^^"}[op]
             return "(Int.ofNat (Int.toNat (%s) %s Int.toNat (%s)))" % (a, f, b), ["(0 : Int) ≤ %s ∧ (0 : Int) ≤ %s" % (a, b)]
@@ -691,6 +724,12 @@ class Fn:
             p, path = self.member_chain(n)
             if p is not None:
                 f = self.owned(p, self.boolf, "%s_%s_null" % (p, "_".join(path)))
+        if f is None and k == "BinaryOperator" and n.get("opcode") == "=":
+            r, i, c, e = self.pexpr(n)      # performs the assignment (pre-lines / effects)
+            return ("False" if want_null else "True"), c, e
+        if f is None and k == "DeclRefExpr" and n["referencedDecl"]["name"] in self.ptr:
+            # a pointer local that was bound to a region: non-NULL (regions exist)
+            return ("False" if want_null else "True"), [], []
         if f is None:
             fail("%s: NULL test of %s" % (self.name, k))
         return ("(s.%s = true)" if want_null else "(s.%s = false)") % f, [], []
@@ -1012,6 +1051,14 @@ class Fn:
             sl = self.skip(lhs)
             if sl.get("kind") == "DeclRefExpr" and sl["referencedDecl"]["name"] in self.alias_locals:
                 return []
+            if sl.get("kind") == "MemberExpr":
+                # `info->buf = <pointer to the start of the region info_buf>` (after realloc, or restoring a saved copy): the region stays the
+                # member's region; anything else would re-seat the member to other memory, which the region model cannot express
+                reg = self.member_region(sl)
+                r, i, c, e = self.pexpr(rhs)
+                if r != reg:
+                    fail("%s: member pointer %s re-seated to region %s" % (self.name, reg, r))
+                return self.with_effects(c + ["%s = 0" % i], [], e, ind)
             if sl.get("kind") != "DeclRefExpr" or sl["referencedDecl"]["name"] not in self.ptr:
                 fail("%s: assignment to a pointer that is not a local variable" % self.name)
             nm = sl["referencedDecl"]["name"]
@@ -1600,6 +1647,9 @@ def resolve_consts(repo, bdir, cfile, names, incs):
 def translate_unit(repo, bdir, unit, cfile, fns, opts=None):
     opts = dict(opts or {})
     opts["cfile"] = cfile
+    EXTRA_INT_TYPES.clear()
+    for k_, v_ in opts.get("int_types", {}).items():
+        EXTRA_INT_TYPES[k_] = (bool(v_[0]), int(v_[1]))
     incs = ["-I" + os.path.join(repo, "hdf/src"), "-I" + os.path.join(repo, "mfhdf/src"), "-I" + os.path.join(repo, "mfhdf/hdiff"),
             "-I" + os.path.join(repo, "mfhdf/hrepack")]
     if bdir:
